@@ -184,30 +184,23 @@ struct reb_rotation reb_rotation_init_from_to(struct reb_vec3d from, struct reb_
     //  More than 90 degrees apart, do rotation in two stages:
     //  (from -> half), (half -> to) 
     struct reb_vec3d half = {.x=from.x+to.x, .y=from.y+to.y, .z=from.z+to.z};
-    half = reb_vec3d_normalize(half);
 
-    if (!isnormal(reb_vec3d_length_squared(half))) {
-        //  half is nearly zero, so from and to point in nearly opposite directions
+    if (!(reb_vec3d_length_squared(half) > 1e-30)) {
+        //  half is zero to within rounding errors, so from and to point in opposite directions
         //  and the rotation is numerically underspecified. Pick an axis orthogonal
         //  to the vectors, and use an angle of pi radians.
         struct reb_vec3d abs_from = {.x=fabs(from.x), .y=fabs(from.y), .z=fabs(from.z)};
-        if (abs_from.x <= abs_from.y && abs_from.x <= abs_from.z){
-            struct reb_vec3d axis = {.x=1, .y=0, .z = 0};
-            axis = reb_vec3d_cross(from, axis);
-            struct reb_rotation q = {.ix=axis.x, .iy=axis.y, .iz=axis.z, .r=0.0};
-            return q;
-        }
-        if (abs_from.y <= abs_from.z){
-            struct reb_vec3d axis = {.x=0, .y=1, .z = 0};
-            axis = reb_vec3d_cross(from, axis);
-            struct reb_rotation q = {.ix=axis.x, .iy=axis.y, .iz=axis.z, .r=0.0};
-            return q;
-        }
         struct reb_vec3d axis = {.x=0, .y=0, .z = 1};
-        axis = reb_vec3d_cross(from, axis);
+        if (abs_from.x <= abs_from.y && abs_from.x <= abs_from.z){
+            axis.x = 1; axis.z = 0;
+        }else if (abs_from.y <= abs_from.z){
+            axis.y = 1; axis.z = 0;
+        }
+        axis = reb_vec3d_normalize(reb_vec3d_cross(from, axis)); // unit vector: the quaternion must have unit norm
         struct reb_rotation q = {.ix=axis.x, .iy=axis.y, .iz=axis.z, .r=0.0};
         return q;
     }
+    half = reb_vec3d_normalize(half);
 
     return reb_rotation_mul(reb_rotation_init_from_to_reduced(from, half), reb_rotation_init_from_to_reduced(half, to));
 }
